@@ -19,6 +19,7 @@ import NgVerif.Model.Http
 import NgVerif.Model.Convert
 import NgVerif.Model.Fault
 import NgVerif.Model.Pipeline
+import NgVerif.Model.Buffers
 /-
   ngdriver: line protocol. One request per line on stdin (space-separated tokens),
   one reply per line on stdout. Unknown / malformed requests answer `bad-request`.
@@ -72,6 +73,42 @@ def msRun (m s p : Nat) (ops : List (Nat × Bytes)) : String :=
     let fl := MS.flush nxt st.buf.length st
     let closed := MS.closeLoop nxt 1000000 fl
     "|".intercalate outs ++ "|closed " ++ showState closed ++ " " ++ bytesToHex closed.data
+
+/-- like `msRun`, but the flush triggered by the LAST store fails at its append number `okN + 1`
+    (`Buffers.flushFail`); then the caller flushes again (the fault is over) and closes -/
+def msRunFail (m s p okN : Nat) (ops : List (Nat × Bytes)) : String :=
+  match ops, ops.getLast? with
+  | (id0, _) :: _, some (idL, bL) =>
+    let masked := Shard.maskedBits m s p id0
+    let nxt := Shard.nextId m s p masked
+    match MS.runAll nxt MS.St.init ops.dropLast with
+    | none => "RuntimeError"
+    | some st =>
+      if idL < nxt st.appended then "RuntimeError"
+      else if nxt st.appended = idL then
+        let s1 := MS.append st bL idL
+        let (sf, _) := Buffers.flushFail nxt s1.buf.length okN s1
+        let raised := (MS.get? sf.buf (nxt sf.appended)).isSome
+        let fl := MS.flush nxt sf.buf.length sf
+        let closed := MS.closeLoop nxt 1000000 fl
+        s!"{if raised then "raised" else "ok"} {showState sf}|closed {showState closed} {bytesToHex closed.data}"
+      else "not-next"
+  | _, _ => "empty"
+
+/-- a history of `OnDiskByteArray.__add__` calls: `hex:ev` with ev = ok | open | w<k> -/
+def odbRun (ops : List String) : String :=
+  let parsed := ops.mapM fun t => match t.splitOn ":" with
+    | [h, e] => do
+      let b ← hexToBytes h
+      let ev ← (if e == "ok" then some Buffers.Ev.ok else if e == "open" then some Buffers.Ev.failOpen
+                else if e.startsWith "w" then (parseNat (e.drop 1).toString).map Buffers.Ev.failWrite else none)
+      pure (b, ev)
+    | _ => none
+  match parsed with
+  | some h =>
+    let b := Buffers.runAdds Buffers.add ⟨[], 0⟩ h
+    s!"{bytesToHex b.file} {b.len}"
+  | none => "bad-request"
 
 /-- group the ops of one shard by minishard, run + close each, sort by key, assemble -/
 def shardBuild (m s p : Nat) (ops : List (Nat × Bytes)) : String :=
@@ -272,6 +309,11 @@ def handle (toks : List String) : String :=
     match parseNat m, parseNat s, parseNat p, parseList parseOp ops with
     | some m, some s, some p, some ops => msRun m s p ops
     | _, _, _, _ => "bad-request"
+  | ["ms-run-fail", m, s, p, okN, ops] =>
+    match parseNat m, parseNat s, parseNat p, parseNat okN, (ops.splitOn ",").mapM parseOp with
+    | some m, some s, some p, some k, some ops => msRunFail m s p k ops
+    | _, _, _, _, _ => "bad-request"
+  | ["odb-run", ops] => odbRun (ops.splitOn ";")
   | ["shard-build", m, s, p, ops] =>
     match parseNat m, parseNat s, parseNat p, parseList parseOp ops with
     | some m, some s, some p, some ops => shardBuild m s p ops
